@@ -9,6 +9,7 @@ import (
 	"net/http"
 	"net/url"
 	"path"
+	"path/filepath"
 	"strings"
 
 	"github.com/olareg/olareg/internal/simrt"
@@ -74,6 +75,27 @@ func rawRequest(w *World, op Op) {
 		if r.Code != 400 || (rq.Method == "GET" && !hasCode(w.errCodes(r), "NAME_INVALID")) {
 			w.x.viol([]string{"C15", "C16"}, "req.error-code", "reserved name: not 400 NAME_INVALID", fmt.Sprintf("%s %s answered %d %v", rq.Method, rq.Path, r.Code, w.errCodes(r)))
 		}
+	}
+	// the same for the source of a mount: a from= outside the grammar never reaches the store (the request goes on as an
+	// ordinary upload), so nothing below the directory that name would stand for is touched
+	if f := queryGet(rq.Query, "from"); f != "" && !reRepo.MatchString(f) && w.root != "" {
+		fp := filepath.Join(w.root, f)
+		related := fp == w.root || strings.HasPrefix(w.root+"/", fp+"/")
+		for _, rp := range rs.repos {
+			if rp != f {
+				tp := filepath.Join(w.root, rp)
+				related = related || strings.HasPrefix(tp+"/", fp+"/") || strings.HasPrefix(fp+"/", tp+"/")
+			}
+		}
+		if !related {
+			for _, e := range w.x.sim.FS.Log[fsBefore:] {
+				if e.Task == "main" && (e.Path == fp || strings.HasPrefix(e.Path, fp+"/")) {
+					w.x.viol([]string{"C15", "C16"}, "req.routed-bad-name", "mount source", fmt.Sprintf("%s %s?%s: the mount source %q is outside the grammar and reached storage: %s %s (answer %d)", rq.Method, rs.path, rs.query, f, e.Op, e.Path, r.Code))
+					break
+				}
+			}
+		}
+		simrt.Probe("fuzz.mount-source-outside-grammar")
 	}
 	// a path whose repository part is not in the OCI grammar must not be routed: 404 and no store access
 	if repoPart, ok := repoPartOf(up); ok && !reRepo.MatchString(repoPart) {
